@@ -257,6 +257,17 @@ func ruleC07_2(c *Ctx) {
 			}
 		}
 		c.check(okCont, tag+": waits while fragments are outstanding", c.at(guardIf), "returns codec.Continue on FragDoneNumber < len(Body)", "the edge on which fragments are still outstanding does not return codec.Continue: eventloop.sread would flush an incomplete request")
+		// the merge functions tell the event loop one of two things: wait (Continue) or go on and flush (nil)
+		for _, r := range returnsReachable(fn) {
+			rv := results(r.(*ssa.Return))[0]
+			okR := isNilConst(rv)
+			if ld, ok := rv.(*ssa.UnOp); ok && ld.X == ssa.Value(cont) {
+				okR = true
+			}
+			if !okR {
+				c.bad(tag+": returns nil or Continue", c.at(r), "the merge function returns "+expr(rv)+": eventloop.sread knows Continue and MovedOrAsk only and leaves its loop on anything else without flushing - the request is completed (Done, reply stored) but its reply stays in the queue until some later reply for the same client happens to flush it")
+			}
+		}
 		isGuard := func(g Guard) bool { return g.If == guardIf && g.Truth == !waitOnTrue }
 		n := 0
 		p.allInstrsDeep(fn, func(in ssa.Instruction) {
